@@ -192,7 +192,7 @@ def build_harness(name, flavor, srcs, wraps=(), cflags=(), ldflags=(), lib=True,
     paths = [os.path.join(ROOT, 'harness', s) for s in srcs]
     if common:
         paths.append(os.path.join(ROOT, 'harness', 'common', 'vh.c'))
-    hdrs = glob.glob(os.path.join(ROOT, 'harness', 'common', '*.h')) + glob.glob(os.path.join(ROOT, 'harness', '*.h'))
+    hdrs = glob.glob(os.path.join(ROOT, 'harness', 'common', '*.h')) + glob.glob(os.path.join(ROOT, 'harness', '*.h')) + glob.glob(os.path.join(ROOT, 'harness', '*.inc'))
     h = hashlib.sha256()
     for p in sorted(paths + hdrs):
         h.update(p.encode() + open(p, 'rb').read())
